@@ -740,6 +740,73 @@ func boundaryFamilies(quick bool, add addFn) {
 		anyObject(r, c, largeValue(d[0], n), d[1] == 1)
 	})
 
+	// one uid under a different user name in every element (a renamed account in a
+	// history file), the same name under different uids, names without uid: what one
+	// element says about a user says nothing about the next - in an <osm>, in the
+	// blocks of an osmChange and in the actions of a diff (whole-document decode and
+	// the streaming scanner both read the marshalled text)
+	add("same-uid", []int{3, 3}, func(r *kit.Run, c Case, d []int) {
+		b := newB(53, true)
+		var objs []interface{}
+		for i := 0; i < 3; i++ {
+			for _, kind := range []int{xmlgen.KindNode, xmlgen.KindWay, xmlgen.KindRelation, xmlgen.KindChangeset} {
+				objs = append(objs, b.Full(kind).Val)
+			}
+		}
+		for i, v := range objs {
+			name := fmt.Sprintf("mapper %c", 'A'+i%7)
+			uid := osm.UserID(777)
+			switch d[0] {
+			case 1: // one name, different uids
+				name, uid = "same name", osm.UserID(100+i)
+			case 2: // names without uid
+				uid = 0
+			}
+			switch x := v.(type) {
+			case *osm.Node:
+				x.User, x.UserID = name, uid
+			case *osm.Way:
+				x.User, x.UserID = name, uid
+			case *osm.Relation:
+				x.User, x.UserID = name, uid
+			case *osm.Changeset:
+				x.User, x.UserID = name, uid
+			}
+		}
+		c.Desc = fmt.Sprintf("12 elements, user pattern %d, container %d", d[0], d[1])
+		switch d[1] {
+		case 0:
+			o := &osm.OSM{Version: "0.6"}
+			for _, v := range objs {
+				put(o, v)
+			}
+			osmContainer(r, c, o, false)
+		case 1:
+			ch := &osm.Change{Create: &osm.OSM{}, Modify: &osm.OSM{}, Delete: &osm.OSM{}}
+			for i, v := range objs {
+				put([]*osm.OSM{ch.Create, ch.Modify, ch.Delete}[i%3], v)
+			}
+			changeContainer(r, c, ch, false)
+		case 2:
+			df := &osm.Diff{}
+			for i, v := range objs {
+				if _, cs := v.(*osm.Changeset); cs {
+					df.Changesets = append(df.Changesets, v.(*osm.Changeset))
+					continue
+				}
+				o := &osm.OSM{}
+				put(o, v)
+				n := &osm.OSM{}
+				put(n, objs[(i+4)%len(objs)])
+				if len(n.Changesets) > 0 {
+					n = o
+				}
+				df.Actions = append(df.Actions, osm.Action{Type: osm.ActionModify, Old: o, New: n})
+			}
+			diffContainer(r, c, df, false)
+		}
+	})
+
 	// a Diff without actions
 	add("empty-diff", []int{3, 2}, func(r *kit.Run, c Case, d []int) {
 		b := newB(45, false)
